@@ -7,6 +7,7 @@ package iam
 import (
 	"encoding/json"
 	"fmt"
+	"strings"
 	"time"
 
 	"github.com/nuts-foundation/go-did/vc"
@@ -79,6 +80,9 @@ func c02Honest(c c02Case, pd c02PD, signer int, aud string, nonce string, layout
 		creds = append(creds, cr)
 	}
 	main := r.newVP(c, signer, aud, nonce, creds...)
+	if c.AudForm == 1 {
+		main.AudString = true // JWT: 'aud' as a plain string instead of a one-element array (both are valid JWT)
+	}
 	if c.Window == 1 {
 		// a valid presentation need not start at the moment it is presented: 5 s in total, 2 s of them already gone
 		main.Created, main.Expires = -2*time.Second, c02Ptr(3*time.Second)
@@ -301,6 +305,36 @@ func c02ApplyPresentationDefect(c c02Case, r *c02Request, d c02Defect, aud strin
 		} else {
 			r.pickVP(d.Arg / 2).Aud = c02Ptr(v)
 		}
+	case "aud_near_miss":
+		// an audience that resembles this server's issuer URL but names another resource: must be refused
+		vp := r.pickVP(d.Arg / 2)
+		nm := c02NearMisses(aud)
+		k := d.Arg % (len(nm) + 1)
+		if k == len(nm) {
+			vp.AudList = []string{nm[0], nm[3], nm[5]} // several members, none of them this server
+		} else {
+			vp.Aud = c02Ptr(nm[k])
+			vp.AudList = nil
+		}
+		vp.AudString = (d.Arg/12)%2 == 1 // JWT: also as plain string
+	case "aud_equivalent":
+		// a different spelling that URL normalisation could map onto the issuer URL: NO expectation (sent and counted)
+		eq := c02Equivalents(aud)
+		vp := r.pickVP(d.Arg / 2)
+		vp.Aud = c02Ptr(eq[d.Arg%len(eq)])
+		vp.AudString = (d.Arg/12)%2 == 1
+	case "aud_array_contains":
+		// JWT 'aud' with several members one of which is exactly this server: NO expectation (HEAD accepts: "contains")
+		vp := r.pickVP(d.Arg / 2)
+		if vp.Format != vc.JWTPresentationProofFormat || vp.Aud == nil {
+			return false
+		}
+		nm := c02NearMisses(aud)
+		if d.Arg%2 == 0 {
+			vp.AudList = []string{nm[0], *vp.Aud}
+		} else {
+			vp.AudList = []string{*vp.Aud, "https://elsewhere.example/oauth2/x"}
+		}
 	case "aud_absent":
 		r.pickVP(d.Arg).Aud = nil
 	// --- validity (s2s) ---
@@ -349,6 +383,43 @@ func c02ApplyPresentationDefect(c c02Case, r *c02Request, d c02Defect, aud strin
 	return true
 }
 
+// c02NearMisses: audiences that are NOT this authorization server although they look like it. (First entries are what
+// shrinking converges to.)
+func c02NearMisses(issuer string) []string {
+	u := strings.TrimPrefix(issuer, "https://")
+	host, path, _ := strings.Cut(u, "/")
+	last := strings.LastIndex(issuer, "/")
+	return []string{
+		issuer + "2",           // another subject whose id extends ours
+		issuer + "-x",          //
+		issuer + ".other",      //
+		issuer + "/x",          // something below us
+		issuer + "/token",      // one of our endpoints is not our issuer identifier
+		issuer[:len(issuer)-1], // proper prefix: another subject
+		issuer[:last],          // proper prefix: the node, not a subject
+		issuer[:last+1] + strings.ToUpper(issuer[last+1:]), // subject ids are case sensitive
+		"http://" + u,                               // other scheme
+		"https://" + host + ":8443/" + path,         // other port
+		"https://" + host + ".evil.example/" + path, // other host that extends ours
+		"https://" + host + "@evil.example/" + path, // our host as userinfo of another
+	}
+}
+
+// c02Equivalents: spellings a URL-normalising comparison might equate with the issuer URL (no expectation).
+func c02Equivalents(issuer string) []string {
+	u := strings.TrimPrefix(issuer, "https://")
+	host, path, _ := strings.Cut(u, "/")
+	return []string{
+		issuer + "/",
+		issuer + "?x=1",
+		issuer + "#f",
+		"https://" + strings.ToUpper(host) + "/" + path,
+		"HTTPS://" + u,
+		"https://" + host + ":443/" + path,
+		"https://" + host + "./" + path,
+	}
+}
+
 // validity periods longer than the allowed 5 s, as offsets from the moment of presentation
 var c02LongWindows = []struct {
 	created, expires time.Duration
@@ -375,7 +446,7 @@ var c02DefectOrder = []string{
 	"signer_not_subject", "foreign_cred_in_vp", "mixed_subjects", "mixed_subjects_via_empty_vp",
 	"foreign_definition", "unfulfilled", "forged_map",
 	"bad_vp_sig", "bad_vc_sig", "cred_revoked", "cred_expired",
-	"aud_wrong", "aud_absent", "validity_long", "validity_no_exp", "validity_stale", "nonce_missing",
+	"aud_wrong", "aud_absent", "aud_near_miss", "aud_equivalent", "aud_array_contains", "validity_long", "validity_no_exp", "validity_stale", "nonce_missing",
 	"scope_unknown", "scope_other", "param_missing", "garbage",
 }
 
